@@ -51,6 +51,48 @@ def run(ctx):
     ctx.step(common.witnesses, ctx, "C05.witness", ["C05"])
 
 
+def _raii_guard(ctx, rid):
+    """rcu_guard as an RAII object: (ok, detail) when it has a user-provided destructor, None otherwise.  Sound when
+    (a) the destructor calls unlock() only under a test of the record pointer, (b) unlock() clears that pointer on every
+    path (a guard released by hand - rcu_read_unlock / rcu_write_unlock stay public - is not released again), (c) the
+    pointer starts out null, (d) the guard cannot be copied."""
+    fb = ctx.fb
+    key = "_raii_guard"
+    if key in ctx.__dict__:
+        return ctx.__dict__[key]
+    res = None
+    dts = [g for g in fb.functions(rec=GUARD, raw=True) if g.kind == "dtor" and not g.defaulted]
+    dts = [g for g in dts if any(s["k"] == "CXXMemberCallExpr" and (s.get("callee") or {}).get("name") in ("unlock", "rcu_read_unlock", "rcu_write_unlock")
+                                 for s in g.stmts.values())]
+    if dts:
+        problems = []
+        for g in dts:
+            nn = NonNull(g)
+            for s in g.stmts.values():
+                if s["k"] == "CXXMemberCallExpr" and (s.get("callee") or {}).get("name") in ("unlock", "rcu_read_unlock", "rcu_write_unlock"):
+                    if not nn.known(g.pos_of(s), ("nn", "this.m_zombie")):
+                        problems.append("~rcu_guard releases without testing m_zombie (a guard that never registered reads an unset record pointer)")
+        for u in fb.functions(rec=GUARD, name="unlock", raw=True):
+            clears = [s for s in u.stmts.values() if s["k"] == "BinaryOperator" and s.get("op") == "=" and
+                      path(u, u.children(s)[0]) == "this.m_zombie" and
+                      (unwrap(u, u.children(s)[1]) or {}).get("k") in ("CXXNullPtrLiteralExpr", "GNUNullExpr") and u.pos_of(s)]
+            if not any(u.postdominates(tuple(u.pos_of(s)), (u.entry, 0)) for s in clears):
+                problems.append("unlock() at %s leaves m_zombie set: a guard released through rcu_read_unlock / rcu_write_unlock is released "
+                                "AGAIN by its destructor - on a record that may already have been reclaimed" % u.where)
+        for r in fb.records(tmpl=GUARD):
+            fl = r.field("m_zombie")
+            cc = [m for m in r.methods if (m.get("copy_ctor") or m.get("copy_assign")) and not m.get("deleted")]
+            if cc:
+                problems.append("rcu_guard can be copied: two guards release one registration")
+            inits_ok = any(g.kind == "ctor" and any(i.get("field") == "m_zombie" for i in g.inits) for g in fb.functions(rec=GUARD, raw=True)
+                           if g.recq == r.qname)
+            if fl is not None and not inits_ok:
+                problems.append("m_zombie has no initialiser: the destructor of a guard that never registered tests an indeterminate pointer")
+        res = (not problems, "; ".join(sorted(set(problems))))
+    ctx.__dict__[key] = res
+    return res
+
+
 def register(ctx, rid="C05.register", handles=True, record=True):
     ctx.rule(rid, "handles register before handing out the list and unregister iff registered; the log record is "
              "complete (owner, next) before the CAS publishes it", floor=16)
@@ -82,6 +124,13 @@ def register(ctx, rid="C05.register", handles=True, record=True):
                 ctx.ob(rid, ok, f.where, "access() records the registration after making it", "", fn=f.label, inst=f.qname)
             elif f.kind == "dtor":
                 calls = [st for st in f.stmts.values() if st["k"] == "CXXMemberCallExpr" and st["callee"]["name"] == unlockfn]
+                if not calls:
+                    rg = _raii_guard(ctx, rid)
+                    if rg is not None:
+                        # the registration is ended by the guard member's own destructor
+                        ctx.ob(rid, rg[0], f.where, "the handle's guard member unregisters in its destructor exactly when it is registered, "
+                               "and an explicit unlock leaves it unregistered", rg[1], fn=f.label, inst=f.qname)
+                        continue
                 nn = NonNull(f)
                 ok = len(calls) == 1 and nn.known(f.pos_of(calls[0]), ("nn", "this.m_accessed"))
                 ctx.ob(rid, ok, f.where, "the destructor unregisters exactly when the handle registered", "" if ok else
@@ -303,7 +352,9 @@ def reclaim(ctx, rid="C05.reclaim"):
             ok = len(fin) == 1 and fin[0]["lit"] == "CXXNullPtrLiteralExpr"
             if ok:
                 i = ev.index(fin[0])
-                later = [e for e in ev[i + 1:] if (e.get("obj") or "").startswith("this.m_zombie") or
+                # (re-pointing the guard's own member - `m_zombie = nullptr` - does not touch the record)
+                later = [e for e in ev[i + 1:] if ((e.get("obj") or "").startswith("this.m_zombie") and
+                                                   not (e["k"] == "write" and e.get("obj") == "this.m_zombie")) or
                          any((a or "").startswith("this.m_zombie") for a in (e.get("args") or []))]
                 ok = not later
             ctx.ob(rid, ok, f.where, "owner.store(nullptr) happens once and nothing touches the own record afterwards",
